@@ -617,7 +617,8 @@ def call_torch(it, f, args, kwargs, node):
         from .ops import dim_of
 
         n = dim_of(args[0])
-        r = it.fresh(T.app("randperm", num_term(args[0]) if num_term(args[0]) is not None else T.sym("?")), (n,), "tensor", node)
+        it.rng_counter = getattr(it, "rng_counter", 0) + 1
+        r = it.fresh(T.app("randperm", num_term(args[0]) if num_term(args[0]) is not None else T.sym("?"), T.sym("draw#%d" % it.rng_counter)), (n,), "tensor", node)
         r.obj.valkind = "perm"
         r.obj.perm_of = args[0]
         return r
@@ -628,7 +629,8 @@ def call_torch(it, f, args, kwargs, node):
             size = a.pop()
         hi = a[-1] if a else kwargs.get("high")
         shape = shape_from_args([size]) if size is not None else None
-        r = it.fresh(T.app("randint", num_term(hi) if num_term(hi) is not None else T.sym("?"), T.sym("rng@%s" % it.site(node))), shape, "tensor", node)
+        it.rng_counter = getattr(it, "rng_counter", 0) + 1
+        r = it.fresh(T.app("randint", num_term(hi) if num_term(hi) is not None else T.sym("?"), T.sym("draw#%d" % it.rng_counter)), shape, "tensor", node)
         r.obj.valkind = "index"
         r.obj.index_bound = hi
         return r
